@@ -15,8 +15,10 @@ def run(ctx):
     part_items(ctx, judge, cov)
     part_messages(ctx, judge, cov)
     part_vectors(ctx, judge, cov, step=1 if thorough else 4)
-    rows, bases, _ = shapes.replay(ctx, want_keeps="same")
+    rows, bases, _ = shapes.replay(ctx, want_keeps="same", also_ops={"drop-node", "dup-node", "swap-with-next", "nest-under-previous"} | shapes.LENIENT_OPS)
     cov["alternative_notation_documents"] = shapes.judge_c04(ctx, rows, bases)
+    cov["restructured_trees_compared_across_xml_and_json"] = shapes.judge_c04_cross(ctx, rows)
+    cov["decorated_documents"] = shapes.judge_c04_lenient(ctx, rows, bases)
     rejected, npairs = judge.decide(ctx)
     for pair, wheres in rejected:
         a, b = pair["a"], pair["b"]
